@@ -1,6 +1,7 @@
 (* GraphIOBipNx.v -- BipartiteGraph.from_networkx on what to_networkx + the gml/dot writers and readers
    deliver (nodes 1..L with bipartite=0, L+1..L+R with bipartite=1, in this order): no label is sorted,
-   so the numbering survives at every size (contrast: dot files of simple/directed graphs, D9). *)
+   so the numbering survives at every size, with string labels (gml, dot as found) and with the integer labels
+   the dot branch of the current code produces (bip_dot_roundtrip). *)
 From Coq Require Import ZArith List Bool Lia ZifyBool Ascii.
 From Cnfgen Require Import GText GraphIO GTextFacts GraphIOFacts GraphIOMatrix GraphIODimacs.
 Import ListNotations.
